@@ -48,12 +48,12 @@ impl Env {
     }
 }
 
-fn same(a: &Record, b: &Record) -> bool {
+pub(crate) fn same(a: &Record, b: &Record) -> bool {
     a.name == b.name && a.name.is_fqdn() == b.name.is_fqdn() && a.ttl == b.ttl && a.dns_class == b.dns_class && a.record_type() == b.record_type() && a.data == b.data
 }
 
 /// multiset equality
-fn same_set(got: &[Record], want: &[&Record]) -> bool {
+pub(crate) fn same_set(got: &[Record], want: &[&Record]) -> bool {
     if got.len() != want.len() {
         return false;
     }
@@ -70,7 +70,7 @@ fn same_set(got: &[Record], want: &[&Record]) -> bool {
     true
 }
 
-fn show(rs: &[Record]) -> String {
+pub(crate) fn show(rs: &[Record]) -> String {
     rs.iter().map(|r| format!("{} {} {} {} {:?}", r.name, r.ttl, r.dns_class, r.record_type(), r.data)).collect::<Vec<_>>().join(" | ")
 }
 
@@ -114,7 +114,7 @@ pub fn load_and_transfer(env: &Env, origin: &Name) -> Result<Result<(Vec<Record>
     })
 }
 
-fn soa_ns(w: &World) -> (Entry, Entry) {
+pub(crate) fn soa_ns(w: &World) -> (Entry, Entry) {
     use hickory_proto::rr::rdata::{NS, SOA};
     use hickory_proto::rr::RData;
     use vref::masterfile::Field::*;
@@ -337,6 +337,225 @@ pub fn replay_loader(ctx: &Ctx, w: &World, case: &Value, l: &mut Local) {
     judge_loader(w, &env, &soa, &ns, &entries, &text, &c, l);
     let _ = ctx;
     let _ = std::fs::remove_dir_all(&base);
+}
+
+// ------------------------------------------------------------------------------------------
+// loader knobs: every argument of the two store constructors that read a zone file
+
+/// Load `zone_path` with one combination of the knobs; returns the loaded records and, when the
+/// policy allows transfers, the AXFR answer.
+#[allow(clippy::too_many_arguments)]
+fn load_with_knobs(
+    env: &Env,
+    origin: &Name,
+    sqlite: bool,
+    zone_type: ZoneType,
+    axfr: AxfrPolicy,
+    root_dir: Option<&Path>,
+    zone_path: &Path,
+    nx: Option<hickory_server::dnssec::NxProofKind>,
+) -> Result<Result<(Vec<Record>, Option<Vec<Record>>), String>, vcore::PanicInfo> {
+    use hickory_server::store::sqlite::{SqliteConfig, SqliteZoneHandler};
+    use hickory_server::zone_handler::ZoneHandler;
+    catch(|| {
+        env.rt.block_on(async {
+            let transfer = matches!(axfr, AxfrPolicy::AllowAll);
+            let flat = |m: &std::collections::BTreeMap<hickory_proto::rr::RrKey, Arc<hickory_proto::rr::RecordSet>>| -> Vec<Record> {
+                m.values().flat_map(|rs| rs.records_without_rrsigs().cloned().collect::<Vec<_>>()).collect()
+            };
+            let (handler, loaded): (Arc<dyn ZoneHandler>, Vec<Record>) = if sqlite {
+                let cfg: SqliteConfig = serde_json::from_value(json!({"zone_path": zone_path, "journal_path": ":memory:"})).map_err(|e| e.to_string())?;
+                let h = SqliteZoneHandler::<hickory_net::runtime::TokioRuntimeProvider>::try_from_config(origin.clone(), zone_type, axfr, false, root_dir, &cfg, nx).await?;
+                let loaded = flat(&*h.records().await);
+                (Arc::new(h), loaded)
+            } else {
+                let h = FileZoneHandler::try_from_config(origin.clone(), zone_type, axfr, root_dir, &FileConfig { zone_path: zone_path.to_path_buf() }, nx)?;
+                let loaded = flat(&*h.records().await);
+                (Arc::new(h), loaded)
+            };
+            let mut catalog = Catalog::new();
+            catalog.upsert(origin.clone().into(), vec![handler.clone()]);
+            let axfr_recs = if transfer {
+                let mut q = Message::new(0x4321, MessageType::Query, OpCode::Query);
+                q.add_query(Query::new(origin.clone(), RecordType::AXFR));
+                let bytes = q.to_vec().map_err(|e| e.to_string())?;
+                let frames = vsim::serve(&catalog, &bytes, Protocol::Tcp).await.ok_or("AXFR request did not parse")?;
+                let mut v = vec![];
+                for f in frames {
+                    let m = Message::from_vec(&f).map_err(|e| format!("AXFR frame undecodable: {e}"))?;
+                    v.extend(m.answers.iter().cloned());
+                }
+                Some(v)
+            } else {
+                None
+            };
+            Ok((loaded, axfr_recs))
+        })
+    })
+}
+
+/// A small set of zone files x EVERY combination of the loader's knobs: store kind {file,
+/// sqlite (fresh in-memory journal)} x zone type {Primary, Secondary, External} x AXFR policy
+/// {Deny, AllowAll, AllowSigned} x {root_dir + relative path, no root_dir + absolute path} x
+/// non-existence proof kind {none, NSEC, NSEC3}. Valid files must load to exactly their records
+/// whatever the knobs; files with an error after valid records must load NOTHING (Err).
+pub fn loader_knobs(ctx: &Ctx, w: &World, base: &Path, thorough: bool) -> u64 {
+    use hickory_server::dnssec::NxProofKind;
+    let (soa, ns) = soa_ns(w);
+    let singles = crate::alphabet::singles();
+    let chain = crate::alphabet::chain_alphabet();
+    // (text, expected records or None = must fail, tag)
+    let mut files: Vec<(String, Option<Vec<Record>>, String)> = vec![];
+    let plain: RecLayout = [0; NDIMS];
+    let mut add_valid = |entries: &[&Entry], lays: &[RecLayout], tag: String| {
+        let mut p = Printer::new(&w.origin, &w.alts, false, None);
+        p.emit_record(&soa.rec, &plain);
+        p.emit_record(&ns.rec, &plain);
+        for (e, l) in entries.iter().zip(lays) {
+            if !p.check_record(&e.rec, l) {
+                return;
+            }
+            p.emit_record(&e.rec, l);
+        }
+        let mut want = vec![soa.expect.clone(), ns.expect.clone()];
+        for e in entries {
+            if !want.iter().any(|x| same(x, &e.expect)) {
+                want.push(e.expect.clone());
+            }
+        }
+        files.push((p.finish(true), Some(want), tag));
+    };
+    for (i, e) in singles.iter().enumerate() {
+        let in_zone = e.rec.class == "IN" && e.rec.owner.len() > w.origin.len() && e.rec.owner[e.rec.owner.len() - w.origin.len()..] == w.origin[..] && e.rec.rtype != "SOA" && !e.tag.contains("3072");
+        if in_zone && i % (if thorough { 2 } else { 8 }) == 0 {
+            let mut lay = plain;
+            lay[D_OWNER] = 1;
+            lay[D_PARENS] = 3;
+            add_valid(&[e], &[lay], e.tag.clone());
+        }
+    }
+    let k = crate::alphabet::CHAIN_ENVS;
+    let mut inherit = plain;
+    inherit[D_OWNER] = 3;
+    inherit[D_TTL] = 1;
+    inherit[D_CLASS] = 1;
+    // a/300/IN A, MX, TXT with everything inherited
+    add_valid(&[&chain[3], &chain[k + 3], &chain[2 * k + 3]], &[plain, inherit, inherit], "chain a/300/IN inherited".into());
+    // files whose LAST entry is malformed: nothing may be loaded
+    let good = files[0].0.clone();
+    for (tag, bad) in [
+        ("missing field", "x 300 IN MX 10\n"),
+        ("unknown type", "x 300 IN BOGUS 1\n"),
+        ("unclosed quote", "x 300 IN TXT \"abc\n"),
+        ("unclosed parenthesis", "x 300 IN TXT ( abc\n"),
+        ("bad address", "x 300 IN A 1.2.3\n"),
+    ] {
+        files.push((format!("{good}{bad}"), None, format!("error after valid records: {tag}")));
+    }
+    let nfiles = files.len();
+    let zone_types = [ZoneType::Primary, ZoneType::Secondary, ZoneType::External];
+    let policies = [AxfrPolicy::Deny, AxfrPolicy::AllowAll, AxfrPolicy::AllowSigned];
+    let combos = 2 * 3 * 3 * 2 * 3;
+    let n = (nfiles * combos) as u64;
+    ctx.par_run_init(
+        n,
+        8,
+        |wk| Env::new(base, wk),
+        |i, l, env| {
+            let (fi, c) = (i as usize / combos, i as usize % combos);
+            let (sqlite, zt, ap, abs, nxk) = (c % 2 == 1, c / 2 % 3, c / 6 % 3, c / 18 % 2 == 1, c / 36 % 3);
+            let (text, want, tag) = &files[fi];
+            if i % 8 == 0 {
+                ctx.watch(l.worker, || json!({"kind": "loader-knobs", "index": i}).to_string());
+            }
+            l.eval();
+            let main = env.root.join("zones/main.zone");
+            std::fs::write(&main, text).expect("scratch write");
+            let nx = match nxk {
+                0 => None,
+                1 => Some(NxProofKind::Nsec),
+                _ => Some(NxProofKind::Nsec3 { algorithm: Default::default(), salt: Arc::new([]), iterations: 0, opt_out: false }),
+            };
+            let (root_dir, zone_path): (Option<&Path>, PathBuf) = if abs { (None, main.clone()) } else { (Some(&env.root), PathBuf::from("zones/main.zone")) };
+            // like the loader differential: only judged on texts the plain parser handles as
+            // expected (the parser itself is judged by the other families)
+            match (parse_flat(text, Some(&main), &w.horigin), want) {
+                (Ok(Ok(got)), Some(wr)) if same_set(&got, &wr.iter().collect::<Vec<_>>()) => {}
+                (Ok(Err(_)), None) => {}
+                _ => {
+                    l.outcome("loader-knobs:skipped:parser-level-difference");
+                    return;
+                }
+            }
+            let knobs = format!("store={},zone-type={:?},axfr={:?},path={},nx-proof={}", if sqlite { "sqlite" } else { "file" }, zone_types[zt], policies[ap], if abs { "absolute" } else { "root-dir+relative" }, ["none", "nsec", "nsec3"][nxk]);
+            let case = || json!({"kind": "loader-knobs", "index": i, "file": tag, "knobs": knobs, "text": text});
+            match (load_with_knobs(env, &w.horigin, sqlite, zone_types[zt], policies[ap], root_dir, &zone_path, nx), want) {
+                (Err(p), _) => l.violation(&panic_key(&p), &format!("the store panicked while loading: {}", p.msg), case),
+                (Ok(Err(_)), None) => l.outcome("loader-knobs:error-file:nothing-loaded"),
+                (Ok(Ok((loaded, _))), None) => l.violation(
+                    &format!("loader-knobs:partial-zone-after-error:store={}", if sqlite { "sqlite" } else { "file" }),
+                    &format!("a zone file with an error was loaded: [{}]", show(&loaded)),
+                    case,
+                ),
+                (Ok(Err(e)), Some(_)) => {
+                    // name only the knobs that matter: reset each to its default while the load still fails
+                    let mut d = [c % 2, c / 2 % 3, c / 6 % 3, c / 18 % 2, c / 36 % 3];
+                    for k in 0..d.len() {
+                        if d[k] == 0 {
+                            continue;
+                        }
+                        let mut t = d;
+                        t[k] = 0;
+                        let nx2 = match t[4] {
+                            0 => None,
+                            1 => Some(NxProofKind::Nsec),
+                            _ => Some(NxProofKind::Nsec3 { algorithm: Default::default(), salt: Arc::new([]), iterations: 0, opt_out: false }),
+                        };
+                        let (rd, zp): (Option<&Path>, PathBuf) = if t[3] == 1 { (None, main.clone()) } else { (Some(&env.root), PathBuf::from("zones/main.zone")) };
+                        if matches!(load_with_knobs(env, &w.horigin, t[0] == 1, zone_types[t[1]], policies[t[2]], rd, &zp, nx2), Ok(Err(_))) {
+                            d = t;
+                        }
+                    }
+                    let mut parts = vec![];
+                    if d[0] == 1 {
+                        parts.push("store=sqlite".to_string());
+                    }
+                    if d[1] != 0 {
+                        parts.push(format!("zone-type={:?}", zone_types[d[1]]));
+                    }
+                    if d[2] != 0 {
+                        parts.push(format!("axfr={:?}", policies[d[2]]));
+                    }
+                    if d[3] == 1 {
+                        parts.push("path=absolute".to_string());
+                    }
+                    if d[4] != 0 {
+                        parts.push(format!("nx-proof={}", ["none", "nsec", "nsec3"][d[4]]));
+                    }
+                    l.violation(&format!("loader-knobs:rejected:{}", if parts.is_empty() { "store=file,path=root-dir+relative".to_string() } else { parts.join(",") }), &format!("valid zone file refused: {e}"), case)
+                }
+                (Ok(Ok((loaded, axfr))), Some(want)) => {
+                    let wv: Vec<&Record> = want.iter().collect();
+                    // the trait-object lookup returns the SOA like any other record
+                    if !same_set(&loaded, &wv) {
+                        l.violation(&format!("loader-knobs:records-differ:{knobs}"), &format!("loaded [{}]", show(&loaded)), case);
+                        return;
+                    }
+                    if let Some(ax) = axfr {
+                        let mut wa = wv.clone();
+                        wa.push(&want[0]);
+                        if !same_set(&ax, &wa) {
+                            l.violation(&format!("loader-knobs:axfr-differs:{knobs}"), &format!("AXFR [{}]", show(&ax)), case);
+                            return;
+                        }
+                    }
+                    l.outcome("loader-knobs:ok");
+                    l.nontrivial(fnv64(format!("{fi}:{c}").as_bytes()));
+                }
+            }
+        },
+    );
+    n
 }
 
 // ------------------------------------------------------------------------------------------
